@@ -256,6 +256,16 @@ func annotate(h *history) {
 	}
 }
 
+// streamClosed: some stream has published something but has no open segment (a failed rotation left it so)
+func streamClosed(st gohlslib.VerifMuxerState) bool {
+	for _, s := range st.Streams {
+		if !s.HasNextSegment && (s.SegmentCount > 0 || s.NextSegmentID > 0) {
+			return true
+		}
+	}
+	return false
+}
+
 // ---- HTTP plumbing ----
 
 type respWriter struct {
@@ -946,6 +956,9 @@ func runImpl(h *history, dir string) (res *runResult) {
 			return
 		}
 		st := gohlslib.VerifSnapshot(m)
+		if len(h.Faults) > 0 && h.Variant == 3 && streamClosed(st) {
+			return
+		}
 		for si, s := range st.Streams {
 			if s.SegmentCount < 1 || (h.Variant == 2 && s.SegmentCount < 2) {
 				continue // the request would block
@@ -1019,6 +1032,13 @@ func runImpl(h *history, dir string) (res *runResult) {
 
 		if counters(snap) == counters(prev) {
 			prev = snap
+			continue
+		}
+		if len(h.Faults) > 0 && h.Variant == 3 && streamClosed(snap) {
+			// Low-Latency, after a rotation that could not create the next segment: until the next write opens a
+			// segment again a media playlist request panics in the unchanged code (DESIGN.md 12.3, observation O1;
+			// storage faults are outside the properties' quantifiers) - nothing is requested in that window, and
+			// the next round is compared with the last one that was observed
 			continue
 		}
 		rot := &rotation{k: k, snap: snap, segRotated: segCounters(snap) != segCounters(prev), window: window}
